@@ -181,7 +181,21 @@ OPS = {
     "ow_abs": lambda s: s.overwrite_absolute_messages([on(0, 50, 0, 64), off(12, 50, 0), cap(24)]),
     "ow_rel": lambda s: s.overwrite_relative_messages([on(None, 51, 0, 64), wait(12), off(None, 51, 0)]),
 }
-OPNAMES = list(OPS)
+
+
+def _x_merge_other(s, other):
+    """the two sides meet again: one is re-channelled and then merges the other into itself (nothing overlaps, so
+    normalising the result drops nothing)"""
+    s.set_channel(7)
+    s.merge([other])
+
+
+def _x_concat_other_copy(s, other):
+    s.concatenate([other.copy()])
+
+
+XOPS = {"x_rechannel_merge_other": _x_merge_other, "x_concat_copy_of_other": _x_concat_other_copy}
+OPNAMES = list(OPS) + list(XOPS)
 
 
 def context(tier, seed):
@@ -198,6 +212,9 @@ def seeds(ctx):
 def apply(state, step_):
     side, idx, name = step_
     target = seqs_of(state[side])[idx]
+    if name in XOPS:
+        XOPS[name](target, seqs_of(state[1 - side])[0])
+        return
     OPS[name](target)
 
 
